@@ -22,6 +22,28 @@ STUB_PATTERNS = [
 ]
 
 
+LIVE = set()          # pids of process groups started by this run (killed on exit / SIGTERM)
+
+
+def kill_live():
+    for pid in list(LIVE):
+        try:
+            os.killpg(pid, signal.SIGKILL)
+        except Exception:
+            pass
+
+
+def install_cleanup():
+    import atexit
+    atexit.register(kill_live)
+
+    def h(sig, frm):
+        kill_live()
+        os._exit(143)
+    signal.signal(signal.SIGTERM, h)
+    signal.signal(signal.SIGINT, h)
+
+
 class Infra(Exception):
     """infrastructure problem -> exit 2, never a verdict"""
 
@@ -136,8 +158,11 @@ class Job:
                  harness=None, unwind=None, solvers=('minisat',), timeout=120, klass='proof', bound='',
                  shim=None, shim_types=None, oracle=None, canary='ensures', skip_this=None, prop=None,
                  extra_c='', loop_contracts=False, note='', inline_ok=True, cbmc_flags=(), inputs=None,
-                 expect_fail=None, finding=None, layer=0, object_bits=12, mem_gb=12, cex_filter=None, optional=False, via=None):
+                 expect_fail=None, finding=None, layer=0, object_bits=12, mem_gb=12, cex_filter=None, optional=False, via=None, abstract_mul=False, abstract_fp=False, ignore_classes=()):
         self.via = via
+        self.ignore_classes = tuple(ignore_classes)
+        self.abstract_fp = abstract_fp
+        self.abstract_mul = abstract_mul
         self.optional = optional
         self.name = name
         self.kernel = kernel
@@ -340,8 +365,10 @@ def run_cmd(cmd, cwd, timeout, mem_gb=12, env=None):
         resource.setrlimit(resource.RLIMIT_AS, (lim, lim))
     p = subprocess.Popen(cmd, cwd=cwd, stdout=subprocess.PIPE, stderr=subprocess.PIPE, text=True,
                          preexec_fn=limit, env=e)
+    LIVE.add(p.pid)
     try:
         out, err = p.communicate(timeout=timeout)
+        LIVE.discard(p.pid)
         return p.returncode, out, err, time.time() - t0, False
     except subprocess.TimeoutExpired:
         try:
@@ -375,6 +402,7 @@ def race(cmds, cwd, timeout, mem_gb=12):
             lim = int(mem_gb * (1 << 30))
             resource.setrlimit(resource.RLIMIT_AS, (lim, lim))
         p = subprocess.Popen(cmd, cwd=cwd, stdout=fo, stderr=fe, text=True, preexec_fn=limit, env=e2)
+        LIVE.add(p.pid)
         procs.append((name, p, d, fo, fe))
     winner = None
     while time.time() - t0 < timeout:
@@ -393,6 +421,7 @@ def race(cmds, cwd, timeout, mem_gb=12):
             except Exception:
                 p.kill()
             p.wait()
+        LIVE.discard(p.pid)
         fo.close()
         fe.close()
     s = time.time() - t0
@@ -533,7 +562,7 @@ def build_job_c(job, kern, canary=False):
     else:
         hdecl, hbody = auto_harness(job, fi, tr)
     defs += arg_macros(job, fi, tr)
-    parts = [tr.head, hdecl, defs, SIGNAL_PRELUDE, job.extra_c, '\n'.join(stubs), tr.globals_text,
+    parts = [('#define VP_ABSTRACT_MUL 1\n' if job.abstract_mul else '') + ('#define VP_ABSTRACT_FP 1\n' if job.abstract_fp else '') + tr.head, hdecl, defs, SIGNAL_PRELUDE, job.extra_c, '\n'.join(stubs), tr.globals_text,
              '\n'.join(protos_extra), '\n'.join(bodies), hbody]
     return '\n'.join(parts), fi, contract, repl, inlined
 
@@ -591,18 +620,30 @@ def arg_macros(job, fi, tr):
         return ''
     from . import cxxtypes as CT
     idx, skip_this = input_params(job, fi)
+    def leaves(t, path):
+        rt = tr.mod.resolve(t)
+        if rt.k == 'struct':
+            out_ = []
+            for j, m in enumerate(rt.a):
+                out_ += leaves(m, path + '.f%d' % j)
+            return out_
+        if rt.k == 'array':
+            out_ = []
+            for j in range(rt.a):
+                out_ += leaves(rt.b, path + '.a[%d]' % j)
+            return out_
+        return [(path, rt)]
     exprs = []
     for k in idx:
         if skip_this and k == 0:
             continue
         t = tr.mod.resolve(fi['param_t'][k])
-        if t.k == 'ptr':
-            path, leaf = scalar_path(tr, t.a)
-        else:
-            path, leaf = '', t
-        if leaf.k != 'int':
-            return ''
-        exprs.append('vp_in%d%s' % (k, path))
+        for path, leaf in leaves(t.a if t.k == 'ptr' else t, ''):
+            if leaf.k not in ('int', 'float', 'double'):
+                return ''
+            exprs.append('vp_in%d%s' % (k, path))
+    if len(exprs) != len(job.shim_types):
+        return ''
     out = ''
     for i, (e, ts) in enumerate(zip(exprs, job.shim_types)):
         if ts in ('f32', 'f64'):
@@ -761,11 +802,16 @@ def _run_job(job, kern, jd, res):
         res.status = 'error'
         res.detail = 'no results in cbmc output'
         return
+    ignored_failed = False
     for r in results:
         cls = classify(r.get('description', ''), r.get('property', ''))
         o = {'name': r.get('property'), 'desc': r.get('description', ''), 'status': r.get('status'), 'cls': cls}
         if cls == 'no-body':
             res.warnings.append('no-body: ' + o['name'])
+            continue
+        if cls in job.ignore_classes:
+            # obligation class discharged by this job's companion (stated in the job's note); not counted here
+            ignored_failed = ignored_failed or r.get('status') != 'SUCCESS'
             continue
         res.obligations.append(o)
         if o['status'] != 'SUCCESS':
@@ -792,7 +838,7 @@ def _run_job(job, kern, jd, res):
     if res.failed:
         res.status = 'fail'
         return
-    if rc != 0:
+    if rc != 0 and not (rc == 10 and ignored_failed):
         res.status = 'error'
         res.detail = 'cbmc rc=%s but no failed obligation' % rc
         return
@@ -834,10 +880,10 @@ def run_jobs(jobs, kernels, wd, workers=None, progress=None):
     def weight(j):
         return len(j.solvers)
     with ThreadPoolExecutor(max_workers=workers) as ex:
+        from concurrent.futures import as_completed
         futs = [ex.submit(run_job, j, kernels[j.kernel], wd) for j in jobs]
-        for f in futs:
-            r = f.result()
-            results.append(r)
+        for f in as_completed(futs):
             if progress:
-                progress(r)
+                progress(f.result())
+        results = [f.result() for f in futs]
     return results
